@@ -97,4 +97,7 @@ claim("C06", "other",
       "obligation ledger: forward must-dataflow over a difference-constraint domain on SSA + edge-dominance gates + frozen table",
       "DESIGN.md 5/C06")
 
-na("C02", "semantic equivalence of two programs over all inputs and 16 optimisation subsets is a run-time relation on values computed by folding and re-derived jump tables; no structural clause is a necessary condition on its own (its structural parts are decided under C08, C10, C16); an honest not-applicable for static analysis")
+claim("C02", "other",
+      "C02 as a whole (value equality across 16 optimisation subsets for all programs and inputs) is NOT decided. Decided are structural necessary conditions of it: ReduceNesting only splices same-kind bool children and keeps every operand in order (R-FLATTEN); optimize runs exactly the enabled-or-absent passes (R-OPTGATE); the ;;;; directive parser and the Optimizations option write CompileOptions identically (R-DIREQ, sibling agreement); plus the per-pass conditions shared with C10 (fold only constants through approved stateless operators, only on success), C16 (reordering permutes and/or operands only, stably) and C01 (fast marking only for two-leaf operators). A change that breaks one of these breaks C02; a change that only alters which value a re-derived jump/stack table holds is out of reach.",
+      "SSA loop-shape and gate rules on the optimizer passes + sibling agreement on option writers + re-run of the C10/C16/C01 pass rules",
+      "DESIGN.md 5/C02")
